@@ -46,9 +46,9 @@ mixed do_op (string s, mixed hookarg) {
   case "ld":
     p = "/c08/" + w[1];
     // typeof() sees the value the efun left on the stack (a local variable would already read as 0)
-    t = typeof (load_object (p));
+    t = typeof (d = load_object (p));
     ob = find_object (p);
-    VL ("r ld c08/" + w[1] + " " + ROID (ob) + " " + (t == "object" ? 1 : 0));
+    VL ("r ld c08/" + w[1] + " " + ROID (ob) + " " + (t == "object" ? 1 : 0) + " " + ROID (d));
     break;
   case "cl":
     ob = clone_object ("/c08/" + w[1]);
